@@ -933,6 +933,12 @@ def cases_overlap(tier, shape, pair, tab):
         for which in ("alpha", "beta"):
             for mk in (None, "half"):
                 out.append(dict(base, kind="alpha-beta", which=which, red="none", mask=mk))
+        # channels that are EMPTY in both inputs (class absent, foreground outside the weight mask, all background):
+        # judged per (item, channel) with reduction='none'
+        for form in ("class-absent-in-one-item", "class-absent-in-all-items", "foreground-outside-weight", "all-background", "one-channel-all-background"):
+            for fn in ("dice_score", "dice_loss", "tversky_index", "tversky_loss"):
+                for same in (True, False):
+                    out.append(dict(base, kind="empty-channel", form=form, fn=fn, same=same, red="none", mask=None))
         for red in ("none", "mean"):
             for g in (None, 1, 2):
                 out.append(dict(base, kind="tversky_loss", gamma=g, red=red, mask=None, logits=False))
@@ -1039,6 +1045,61 @@ def judge_overlap(case, res):
             return
         res.nontriv = not np.array_equal(dx, dy)
         cmp(res, form, "tversky(.5,.5)!=dice", got, ref, C * EPS32 * scale_of(ref), f"alpha/beta form {case['ab']}, reduction={case['red']}")
+        return
+    if kind == "empty-channel":
+        fm, fn, same = case["form"], case["fn"], case["same"]
+        form = f"{fn}/empty-channel/{fm}/{'identical' if same else 'different'}"
+        wt = None
+        if fm.startswith("class-absent"):
+            la = ld.labels(N, sp, 3, tab, var)
+            lb = ld.labels(N, sp, 3, tab, var + 1)
+            for lab in (la, lb):
+                if fm == "class-absent-in-one-item":
+                    lab[0][lab[0] == 2] = 1  # class 2 absent in the first batch item only (all items if N == 1)
+                else:
+                    lab[lab == 2] = 0
+            a, b = ld.one_hot(la, 3), ld.one_hot(lb, 3)
+            empty = np.zeros((N, 3), dtype=bool)
+            empty[0 if fm == "class-absent-in-one-item" else slice(None), 2] = True
+        elif fm == "foreground-outside-weight":
+            w = np.broadcast_to(np_mask("half", shape), shape).astype(np.float64)
+            a, b = s * (1 - w), t * (1 - w)  # every foreground voxel has weight zero
+            wt = T(w)
+            empty = np.ones((N, Cc), dtype=bool)
+        elif fm == "all-background":
+            a, b = np.zeros(shape), np.zeros(shape)
+            empty = np.ones((N, Cc), dtype=bool)
+        else:  # one channel of one item is all background in both inputs, the others are not
+            a, b = s.copy(), t.copy()
+            a[0, Cc - 1] = 0
+            b[0, Cc - 1] = 0
+            empty = np.zeros((N, Cc), dtype=bool)
+            empty[0, Cc - 1] = True
+        if same:
+            b = a.copy()
+        st, v = run(getattr(F_, fn), T(a), T(b), weight=wt, reduction="none")
+        got = val(st, v, form, f"{fn}(reduction='none')")
+        if got is None:
+            return
+        res.nontriv = True
+        if got.shape != empty.shape:
+            res.bad(f"{form}/none-shape", f"'none' output shape {got.shape}, expected {empty.shape}")
+            return
+        is_loss = fn.endswith("_loss")
+        tol = C * EPS32
+        if got.min() < -tol or got.max() > 1 + tol:
+            res.bad(f"{form}/out-of-range", f"per (item, channel) values in [{got.min():.6g}, {got.max():.6g}] outside [0, 1]")
+        want_empty = 0.0 if is_loss else 1.0
+        e = got[empty]
+        if e.size and np.max(np.abs(e - want_empty)) > tol:
+            res.bad(f"{form}/empty-channel-score", f"channel empty in both inputs gives {e.ravel()[:3]}, expected {want_empty} (identical empty segmentations)")
+        if same and np.max(np.abs(got - want_empty)) > tol:
+            res.bad(f"{form}/identical-inputs", f"identical inputs give {got.ravel()[:4]}, expected {want_empty}")
+        if fn == "tversky_index":
+            st, v = run(F_.dice_score, T(a), T(b), weight=wt, reduction="none")
+            ref = val(st, v, "dice_score/empty-channel/" + fm, "dice_score")
+            if ref is not None:
+                cmp(res, form, "tversky(.5,.5)!=dice", got, ref, C * EPS32 * scale_of(ref), "default alpha = beta = 1/2 on binary inputs with an empty channel")
         return
     if kind == "alpha-beta":
         # documented meaning of the two multipliers: alpha weighs false positives, beta false negatives.
